@@ -378,6 +378,8 @@ def run(ck):
                'selection patterns x 8 selecting families on both paths; 65 single-guard statements; 27 hand-built '
                'trees; 4,896 enumerated multi-clause plans (every 2- and 3-subset of 13 clause templates and every 4-subset of 9, in '
                'every order: forward references, WHERE-bound vs plan-output vs sibling-WHERE-bound handles, double claims); '
+               'UPDATE action LISTS: every pair and triple of the 7 action kinds (a kind repeated included) x the field under test '
+               'in every position x 5 names x 7 target forms, on both paths; '
                'random multi-clause plans; single-node mutations of accepted trees; the ASSERT '
                'member matrix. non-trivial = a distinct model-compared tree that names an engine-owned or payload '
                'field, a typed target, a selection pattern, or has >= 2 clauses')
@@ -412,7 +414,7 @@ def run(ck):
     ck.count(summary['evaluations'])
     ck.cov['input_distribution'] = {k: summary[k] for k in (
         'texts', 'text_accepted', 'text_errors', 'injected', 'accepted', 'rejected', 'trees_written', 'families',
-        'seeds', 'asserts', 'assert_accepted', 'graph_plans')}
+        'seeds', 'asserts', 'assert_accepted', 'graph_plans', 'action_lists')}
 
     # ---- direct oracle on the implementation (the failing-input search)
     by_cls = Counter(f['class'] for f in summary['failures'])
@@ -442,6 +444,12 @@ def run(ck):
             if r['family'].startswith('graph'):
                 k[1] += 1
                 if k[1] % 4 == 1:
+                    chosen.append(r)
+            elif r['family'].startswith('actions'):
+                # bucket = (path, target, list length, position, name, verdict); the first sequence of every bucket is the
+                # one that repeats SET FIELDS, then an even stride over the 49 / 343 kind sequences
+                k[1] += 1
+                if k[1] % (12 if '/2/p' in r['family'] else 60) == 1:
                     chosen.append(r)
             elif r['verdict'] != 'ok' and not r['family'].startswith(('mutation', 'plan')):
                 chosen.append(r)
